@@ -14,7 +14,7 @@ pub fn run_c13(args: &Args) -> i32 {
   net::set_policy_drop_all();
   let mut rep = Report::new(
     args,
-    "real threads under a baton scheduler (one runnable at a time, seeded uniform-random or PCT priority schedule (depth 1-3) over the yield points; yield points sit between critical sections of Reader::notify_cache_change, Reader::process_received_data, SimpleDataReaderStream::poll_next, DataReader::take, AsyncWrite::poll, Writer::process_writer_command): (a) producer thread feeds DATA (in order / pairwise swapped, reliable and best-effort) into a real Reader, consumer thread follows the documented pattern through the async stream, mio-0.6 or mio-0.8, parking is modelled; (b) an async task issues 18-40 async_write calls against the 16-slot command queue while another thread runs the Writer's command loop; distinct = hash of the schedule's choice sequence; non-trivial = the consumer/task parked at least once",
+    "real threads under a baton scheduler (one runnable at a time, seeded uniform-random or PCT priority schedule (depth 1-3) over the yield points; yield points sit between critical sections of Reader::notify_cache_change, Reader::process_received_data, SimpleDataReaderStream::poll_next, DataReader::take, AsyncWrite::poll, Writer::process_writer_command): (a) producer thread feeds DATA (in order / pairwise swapped, reliable and best-effort) into a real Reader, consumer thread follows the documented pattern through the async stream, mio-0.6 or mio-0.8, parking is modelled; (b) an async task issues 18-40 async_write calls against the 16-slot command queue while another thread runs the Writer's command loop; (c) an async task writes and awaits async_wait_for_acknowledgments 1-5 times while another thread runs the Writer's command loop and delivers the matched reader's ACKNACK as a step of its own; every poll hands over a waker of a new generation, only a wake of the latest generation counts, and random Pending polls are followed by one more poll nobody asked for; (d) real-thread stress of the status channel (no scheduler): sender and poller released from a spin barrier with 0-23 spins of jitter each, verdict is logical (try_send has returned, the stream is Pending, its latest waker was not invoked); (a) also has the variant where one sample never arrives and a non-final HEARTBEAT whose first_sn is past the hole releases the held-back successors; distinct = hash of the schedule's choice sequence; non-trivial = the consumer/task parked at least once",
   );
   rep.assume("lost wake-up = at quiescence (producer done, nobody runnable) the consumer is parked, received no wake-up signal since it parked, and a fresh take finds samples; for async_write: the parked future completes when polled once more although nothing woke it");
   rep.assume("interleavings finer than the yield points (inside mio, inside the kernel socketpair, inside a lock scope) are not explored");
@@ -29,6 +29,38 @@ pub fn run_c13(args: &Args) -> i32 {
     let tag = json!({"seed": seed, "stream": 0x1313, "index": i});
     let sseed = rng.next();
     acc.evaluations += 1;
+    if i % 8 == 7 {
+      // ---- async wait for acknowledgments vs writer command loop and the peer's ACKNACK
+      let n = 1 + rng.below(5) as usize;
+      let mask = if rng.chance(1, 2) { rng.next() as u32 & 0xff } else { 0 };
+      let pct = if rng.chance(1, 2) { 1 + rng.below(3) as usize } else { 0 };
+      let o = schedsc::run_async_ackwait_scenario(n, mask, sseed, pct);
+      acc.count("ackwait_scenarios", 1);
+      acc.count("ackwait_rounds_completed", o.writes_completed as u64);
+      acc.count("ackwait_parks", o.parks);
+      acc.count("ackwait_wakeups_through_the_latest_waker", o.wakeups);
+      if mask != 0 {
+        acc.count("ackwait_scenarios_with_unrequested_repolls", 1);
+      }
+      acc.count("scheduler_steps", o.steps as u64);
+      for (k, v) in &o.site_hits {
+        acc.count(&format!("site:{k}"), *v);
+      }
+      let replay = || json!({"case": tag, "scenario": "async_wait_for_acknowledgments", "rounds": n, "repoll_mask": mask, "schedule_seed": sseed, "pct_depth": pct, "trace_tail": o.trace.iter().rev().take(60).rev().collect::<Vec<_>>()});
+      if o.exhausted {
+        acc.inconclusive.push(format!("ack-wait schedule {i} exhausted its step budget"));
+        return;
+      }
+      if o.completed_only_on_final_repoll {
+        acc.violate("C13/lost-wakeup:async-ack-wait-parked-although-all-acknowledged", json!({"rounds_completed": o.writes_completed, "parks": o.parks, "wakeups": o.wakeups}), replay());
+      } else if o.writes_completed != o.writes_requested {
+        acc.violate("C13/lost-wakeup:async-ack-wait-never-completed", json!({"rounds_completed": o.writes_completed, "failed": o.writes_failed, "requested": o.writes_requested}), replay());
+      }
+      if o.parks > 0 {
+        acc.distinct.insert(o.schedule_hash);
+      }
+      return;
+    }
     if i % 4 == 3 {
       // ---- async write vs writer command loop
       let n = 18 + rng.below(22) as usize;
@@ -63,7 +95,12 @@ pub fn run_c13(args: &Args) -> i32 {
     let ooo = reliable && rng.chance(1, 3);
     let pct = if rng.chance(1, 2) { 1 + rng.below(3) as usize } else { 0 };
     acc.count(&format!("reader_schedules_pct_depth_{pct}"), 1);
-    let o = schedsc::run_reader_scenario(mech, reliable, n, ooo, sseed, pct);
+    // a third stream position is drawn only after the old ones, so earlier replays keep their meaning
+    let lost_hb = reliable && n >= 2 && rng.chance(1, 3);
+    if lost_hb {
+      acc.count("reader_scenarios_lost_sample_released_by_heartbeat", 1);
+    }
+    let o = schedsc::run_reader_scenario(mech, reliable, n, ooo, lost_hb, sseed, pct);
     acc.count(&format!("reader_scenarios_{mech:?}"), 1);
     acc.count("consumer_parks", o.parks);
     acc.count("consumer_wakeups", o.wakeups);
@@ -71,7 +108,7 @@ pub fn run_c13(args: &Args) -> i32 {
     for (k, v) in &o.site_hits {
       acc.count(&format!("site:{k}"), *v);
     }
-    let replay = || json!({"case": tag, "scenario": format!("{mech:?}"), "reliable": reliable, "samples": n, "out_of_order": ooo, "schedule_seed": sseed, "pct_depth": pct, "trace": o.trace});
+    let replay = || json!({"case": tag, "scenario": format!("{mech:?}"), "reliable": reliable, "samples": n, "out_of_order": ooo, "lost_then_heartbeat": lost_hb, "schedule_seed": sseed, "pct_depth": pct, "trace": o.trace});
     if let Some(e) = &o.error {
       acc.violate("C13/error:consumer-call-failed", json!({"err": e}), replay());
       return;
@@ -98,9 +135,44 @@ pub fn run_c13(args: &Args) -> i32 {
       acc.sample(replay(), 2);
     }
   });
+  // ---- (d) the status channel (carrier of the ack-wait completion and of all async status streams) under real
+  // threads: interleavings inside its lock scope, which the baton scheduler cannot cut
+  let mut acc = acc;
+  if replay_case.is_none() {
+    let pairs = (args.threads() / 2).clamp(1, 6) as u64;
+    let rounds = args.scale(40_000, 2_000_000);
+    let outs: Vec<(u64, rustdds::verif::chanstress::StressOut)> = std::thread::scope(|sc| {
+      let hs: Vec<_> = (0..pairs)
+        .map(|p| {
+          let sd = Rng::derive(seed, 0x1314, p).next();
+          sc.spawn(move || (sd, rustdds::verif::chanstress::status_channel_stress(rounds, sd)))
+        })
+        .collect();
+      hs.into_iter().map(|h| h.join().expect("stress pair")).collect()
+    });
+    for (sd, o) in outs {
+      acc.evaluations += 1;
+      acc.count("statuschannel_stress_rounds", o.rounds);
+      acc.count("statuschannel_stress_ready_at_first_poll", o.ready_at_first_poll);
+      acc.count("statuschannel_stress_pending_then_woken", o.pending_then_woken);
+      acc.count("statuschannel_stress_pending_observed_while_send_in_flight", o.pending_seen_before_send_returned);
+      acc.count("statuschannel_stress_repolled_with_new_waker", o.repolled_with_new_waker);
+      let replay = || json!({"case": {"seed": seed, "stream": 0x1314}, "scenario": "status_channel_stress", "pair_seed": sd, "rounds": rounds, "note": "real threads: the round numbers differ from run to run"});
+      if let Some((r, st)) = o.lost.first() {
+        acc.violate("C13/lost-wakeup:status-stream-pending-after-send-returned-and-latest-waker-not-invoked", json!({"first_round": r, "wakes_of_superseded_wakers_in_that_round": st, "rounds_affected": o.lost.len()}), replay());
+      }
+      if let Some((r, w)) = o.wrong.first() {
+        acc.violate("C13/delivery:status-stream-poll-after-send-did-not-yield-the-message", json!({"first_round": r, "poll_result": w, "rounds_affected": o.wrong.len()}), replay());
+      }
+    }
+  }
   for s in ["site:reader:after-cache-insert", "site:reader:notify:before-waker-take", "site:reader:notify:before-mio08-send", "site:reader:notify:before-mio06-send", "site:stream:poll:after-first-take", "site:stream:poll:after-set-waker", "site:datareader:take:after-drain", "site:datareader:take:after-fill", "site:writer:command:after-recv", "site:consumer:parked"] {
     rep.require(s, 100);
   }
   rep.require("consumer_wakeups", 500);
+  rep.require("ackwait_wakeups_through_the_latest_waker", 100);
+  rep.require("statuschannel_stress_pending_then_woken", 1000);
+  rep.require("statuschannel_stress_ready_at_first_poll", 1000);
+  rep.require("ackwait_scenarios_with_unrequested_repolls", 100);
   rep.finish(acc)
 }
